@@ -76,6 +76,11 @@ pub struct Cfg {
     pub comp: u8,
     /// 0..4 fixed filter, 5 adaptive
     pub filt: u8,
+    /// refused `Encoder` calls made while the encoder is configured (see `enc_misuse`); they must leave no trace,
+    /// so the model is given the configuration WITHOUT them: `z` set_animated(0, _) · `s` set_sep_def_img ·
+    /// `d` set_frame_delay · `b` set_blend_op · `o` set_dispose_op (the four: while the encoder is not animated) ·
+    /// `A` / `F` with_info with only an animation control / only a frame control (on a sink of their own)
+    pub mis: String,
 }
 
 #[derive(Clone, Debug, PartialEq, Eq)]
@@ -273,6 +278,9 @@ impl Cfg {
         if !model {
             p.push(format!("comp={}", self.comp));
             p.push(format!("filt={}", self.filt));
+            if !self.mis.is_empty() {
+                p.push(format!("mis={}", self.mis));
+            }
         }
         p
     }
@@ -309,6 +317,7 @@ impl Cfg {
                 "val" => c.val = v == "1",
                 "comp" => c.comp = v.parse().ok()?,
                 "filt" => c.filt = v.parse().ok()?,
+                "mis" if v.chars().all(|ch| "zsdboAF".contains(ch)) => c.mis = v.to_string(),
                 _ => return None,
             }
         }
@@ -934,6 +943,8 @@ impl StreamShadow {
 
 #[derive(Clone, Copy, Debug, PartialEq, Eq)]
 pub enum CallKind {
+    /// a refused call on the `Encoder` (`Cfg::mis`)
+    EncoderSetter,
     Header,
     Image,
     Chunk,
@@ -956,6 +967,7 @@ impl CallKind {
     }
     pub fn name(&self) -> &'static str {
         match self {
+            CallKind::EncoderSetter => "encoder-setter",
             CallKind::Header => "write_header",
             CallKind::Image => "write_image_data",
             CallKind::Chunk => "write_chunk",
@@ -1023,6 +1035,10 @@ pub struct Observed {
     pub sessions: Vec<SessInfo>,
     pub rect_setter_before_first: bool,
     pub stream_beyond_declared: bool,
+    /// the refused `Encoder` calls of `Cfg::mis`: (call, result)
+    pub enc_misuse: Vec<(String, String)>,
+    /// failures of the small-API oracles (error formatting, empty `write`, `FrameControl` helpers): (class, what)
+    pub api_faults: Vec<(String, String)>,
 }
 
 fn color_of(c: u8) -> png::ColorType {
@@ -1067,7 +1083,91 @@ pub fn be32s(b: &[u8], i: usize) -> u32 {
     u32::from_be_bytes([b[i], b[i + 1], b[i + 2], b[i + 3]])
 }
 
-fn build_encoder(cfg: &Cfg, sink: SharedSink) -> Result<png::Encoder<'static, SharedSink>, png::EncodingError> {
+thread_local! {
+    /// small-API oracle failures noticed where no report is at hand (`enc_res`, `build_encoder`): (class, what);
+    /// `exec` moves them into `Observed::api_faults`
+    static API_FAULTS: RefCell<Vec<(String, String)>> = RefCell::new(Vec::new());
+}
+
+pub fn note_api_fault(class: &str, what: String) {
+    API_FAULTS.with(|f| f.borrow_mut().push((class.to_string(), what)));
+}
+pub fn take_api_faults() -> Vec<(String, String)> {
+    API_FAULTS.with(|f| f.borrow_mut().drain(..).collect())
+}
+
+/// Every `EncodingError` the harness receives is formatted (`Display`, `Debug`) and asked for its cause / source:
+/// no panic, a non-empty message, a cause exactly for I/O errors (and then the sink's own error), and the
+/// conversion into `io::Error` keeps the message.
+pub fn check_error_api(e: &png::EncodingError) {
+    use std::error::Error;
+    let r = guarded(|| {
+        let shown = format!("{}", e);
+        let debug = format!("{:?}", e);
+        #[allow(deprecated)]
+        let cause = e.cause().map(|c| c.to_string());
+        let _ = e.source().map(|c| c.to_string());
+        (shown, debug, cause)
+    });
+    match r {
+        Err(p) => note_api_fault("error-api/panic", format!("formatting an EncodingError panicked: {}", p)),
+        Ok((shown, debug, cause)) => {
+            if shown.is_empty() || debug.is_empty() {
+                note_api_fault("error-api/empty-message", format!("Display `{}` Debug `{}`", shown, debug));
+            }
+            let is_io = matches!(e, png::EncodingError::IoError(_));
+            if cause.is_some() != is_io {
+                note_api_fault("error-api/cause", format!("cause() is {:?} for `{}`", cause, debug.chars().take(80).collect::<String>()));
+            }
+            if let (Some(c), true) = (&cause, is_io) {
+                if *c != shown {
+                    note_api_fault("error-api/cause", format!("cause `{}` differs from the error shown `{}`", c, shown));
+                }
+            }
+        }
+    }
+}
+
+/// The refused `Encoder` calls of `cfg.mis` (C19: invalid parameters are errors and leave no trace).  `late` =
+/// after every other setter (the encoder is animated then if the configuration is); before, only a frame control
+/// given to `with_info` makes it animated.  Every call made is recorded as (call, result).
+fn enc_misuse(enc: &mut png::Encoder<'static, SharedSink>, cfg: &Cfg, late: bool, out: &mut Vec<(String, String)>) {
+    let animated_now = cfg.fc.is_some() || (late && cfg.anim.is_some());
+    let at = if late { "late" } else { "early" };
+    for ch in cfg.mis.chars() {
+        let (name, r) = match ch {
+            'z' => ("set_animated(0)", enc.set_animated(0, 7)),
+            's' if !animated_now => ("set_sep_def_img", enc.set_sep_def_img(true)),
+            'd' if !animated_now => ("set_frame_delay", enc.set_frame_delay(3, 4)),
+            'b' if !animated_now => ("set_blend_op", enc.set_blend_op(png::BlendOp::Over)),
+            'o' if !animated_now => ("set_dispose_op", enc.set_dispose_op(png::DisposeOp::Background)),
+            'A' | 'F' if !late => {
+                // `Info` with exactly one of animation control / frame control, on a sink of its own
+                let probe = SharedSink::new(&SinkSpec::default());
+                let mut info = png::Info::with_size(cfg.w.max(1), cfg.h.max(1));
+                if ch == 'A' {
+                    info.animation_control = Some(png::AnimationControl { num_frames: 2, num_plays: 0 });
+                } else {
+                    info.frame_control = Some(png::FrameControl { width: cfg.w.max(1), height: cfg.h.max(1), ..Default::default() });
+                }
+                let r = png::Encoder::with_info(probe.clone(), info).map(|_| ());
+                if probe.0.borrow().touches > 0 {
+                    note_api_fault("encoder-misuse/refused-call-wrote", format!("with_info ({}) touched the sink {} times", ch, probe.0.borrow().touches));
+                }
+                (if ch == 'A' { "with_info(acTL only)" } else { "with_info(fcTL only)" }, r)
+            }
+            _ => continue,
+        };
+        out.push((format!("{}@{}", name, at), enc_res(&r)));
+    }
+}
+
+/// what a refused `Encoder` call of `enc_misuse` has to answer
+pub fn enc_misuse_expected(call: &str) -> &'static str {
+    if call.starts_with("set_animated(0)") { "err:zeroFrames" } else { "err:notAnimated" }
+}
+
+fn build_encoder(cfg: &Cfg, sink: SharedSink, mis: &mut Vec<(String, String)>) -> Result<png::Encoder<'static, SharedSink>, png::EncodingError> {
     let need_info = cfg.fc.is_some() || cfg.icc.is_some() || cfg.exif.is_some();
     let mut enc: png::Encoder<'static, SharedSink> = if need_info {
         let mut info = png::Info::with_size(cfg.w, cfg.h);
@@ -1078,8 +1178,15 @@ fn build_encoder(cfg: &Cfg, sink: SharedSink) -> Result<png::Encoder<'static, Sh
             info.exif_metadata = Some(Cow::Owned(p.clone()));
         }
         if let Some(fc) = &cfg.fc {
+            // (the sequence number through the two public helpers of `FrameControl`)
+            let mut seq = png::FrameControl::default();
+            seq.set_seq_num(fc.seq / 2);
+            seq.inc_seq_num(fc.seq - fc.seq / 2);
+            if seq.sequence_number != fc.seq {
+                note_api_fault("frame-control/seq-num", format!("set_seq_num({}) + inc_seq_num({}) gives {}", fc.seq / 2, fc.seq - fc.seq / 2, seq.sequence_number));
+            }
             info.frame_control = Some(png::FrameControl {
-                sequence_number: fc.seq,
+                sequence_number: seq.sequence_number,
                 width: fc.w,
                 height: fc.h,
                 x_offset: fc.x,
@@ -1098,6 +1205,7 @@ fn build_encoder(cfg: &Cfg, sink: SharedSink) -> Result<png::Encoder<'static, Sh
     };
     enc.set_color(color_of(cfg.color));
     enc.set_depth(depth_of(cfg.depth));
+    enc_misuse(&mut enc, cfg, false, mis);
     if cfg.fc.is_none() {
         if let Some((f, p)) = cfg.anim {
             enc.set_animated(f, p)?;
@@ -1156,6 +1264,7 @@ fn build_encoder(cfg: &Cfg, sink: SharedSink) -> Result<png::Encoder<'static, Sh
         _ => png::DeflateCompression::Level(9),
     });
     enc.set_filter(filter_of(cfg.filt));
+    enc_misuse(&mut enc, cfg, true, mis);
     Ok(enc)
 }
 
@@ -1204,6 +1313,9 @@ pub fn io_res(e: &io::Error) -> String {
 }
 
 pub fn enc_res<T>(r: &Result<T, png::EncodingError>) -> String {
+    if let Err(e) = r {
+        check_error_api(e);
+    }
     match r {
         Ok(_) => "ok".into(),
         Err(png::EncodingError::IoError(e)) => io_res(e),
@@ -1359,6 +1471,30 @@ impl<'c> Rt<'c> {
         for (k, op) in sess.ops.iter().enumerate() {
             let before = self.sink.probe();
             let (res, kind, misuse): (Result<String, String>, CallKind, Option<&'static str>) = match op {
+                SOp::Write(d) if d.is_empty() => {
+                    // `write_all(&[])` never calls `write`; here ONE `write(&[])` is made instead: it accepts nothing,
+                    // does not touch the sink and changes nothing (`Ok(0)`) — or reports the unrecoverable state a
+                    // sink failure of this session left behind.  Towards the model it is the no-op `write_all(&[])`.
+                    let r = guarded(|| sw.write(&[]));
+                    let after = self.sink.probe();
+                    if after != before {
+                        self.obs.api_faults.push(("empty-write/touched-sink".into(), format!("StreamWriter::write(&[]) made {} sink calls", after.1 - before.1)));
+                    }
+                    let r = r.map(|x| {
+                        match x {
+                            Ok(0) => {}
+                            Ok(n) => self.obs.api_faults.push(("empty-write/accepted-bytes".into(), format!("StreamWriter::write(&[]) returned Ok({})", n))),
+                            Err(e) => {
+                                let s = io_res(&e);
+                                if !(s == "err:unrecoverable" && self.sink.0.borrow().errors > errors_at_start) {
+                                    self.obs.api_faults.push(("empty-write/error".into(), format!("StreamWriter::write(&[]) returned {} ({} sink errors in this session)", s, self.sink.0.borrow().errors - errors_at_start)));
+                                }
+                            }
+                        }
+                        "ok".to_string()
+                    });
+                    (r, CallKind::StreamWrite, None)
+                }
                 SOp::Write(d) => {
                     let mut acc = 0usize;
                     let r = guarded(|| sw_write_all(&mut sw, d, &mut acc));
@@ -1469,7 +1605,20 @@ pub fn exec(case: &Case) -> Observed {
     let before = sink.probe();
     let cfg = case.cfg.clone();
     let s2 = sink.clone();
-    let hdr = guarded(move || build_encoder(&cfg, s2).and_then(|e| e.write_header()));
+    let _ = take_api_faults();
+    let hdr = guarded(move || {
+        let mut mis = vec![];
+        let r = build_encoder(&cfg, s2, &mut mis).and_then(|e| e.write_header());
+        (r, mis)
+    });
+    let hdr = hdr.map(|(r, mis)| {
+        for (call, res) in &mis {
+            let m = if call.starts_with("set_animated(0)") { "encoder-zero-frames" } else if call.starts_with("with_info") { "with-info-half-animated" } else { "encoder-setter-on-non-animated" };
+            rt.obs.calls.push(CallRec { what: call.clone(), kind: CallKind::EncoderSetter, res: res.clone(), sink_err: false, touched: false, misuse: Some(m), owned: false });
+        }
+        rt.obs.enc_misuse = mis;
+        r
+    });
     let mut writer = match hdr {
         Err(p) => {
             let r = panic_res(&p);
@@ -1496,7 +1645,8 @@ pub fn exec(case: &Case) -> Observed {
                 Step::Stream(sess) => {
                     let size = sess.size;
                     let wr: &mut png::Writer<SharedSink> = w;
-                    let new_res = guarded(move || wr.stream_writer_with_size(size));
+                    // (4096 is the documented default size: through the constructor without a size)
+                    let new_res = guarded(move || if size == 4096 { wr.stream_writer() } else { wr.stream_writer_with_size(size) });
                     let (rs, p) = rt.drive(new_res, before, sess, i, false);
                     results = rs;
                     panicked = p;
@@ -1618,7 +1768,7 @@ pub fn exec(case: &Case) -> Observed {
                 }
                 PFinal::Into(sess) => {
                     let size = sess.size;
-                    let new_res = guarded(move || w.into_stream_writer_with_size(size));
+                    let new_res = guarded(move || if size == 4096 { w.into_stream_writer() } else { w.into_stream_writer_with_size(size) });
                     let (rs, _) = rt.drive(new_res, before, sess, usize::MAX, true);
                     rt.obs.fin = Some(rs);
                 }
@@ -1634,6 +1784,7 @@ pub fn exec(case: &Case) -> Observed {
     obs.flush_calls = s.flush_calls;
     obs.sink_errors = s.errors;
     obs.images_ok = rt.sh.images_ok;
+    obs.api_faults.extend(take_api_faults());
     obs
 }
 
@@ -1735,6 +1886,13 @@ pub fn zlib_inflate(z: &[u8]) -> Option<(Vec<u8>, usize)> {
     let ad = u32::from_be_bytes([z[used - 4], z[used - 3], z[used - 2], z[used - 1]]);
     if ad != adler32(&out) {
         return None;
+    }
+    // The streaming inflater above writes into a wrapping window: a match whose distance reaches back before the first
+    // byte of the output is not noticed there (zeros come out, and the Adler-32 of an all-zero image still fits).  Such a
+    // stream is not a deflate stream; one-shot inflation into a buffer that does not wrap refuses it.
+    match miniz_oxide::inflate::decompress_to_vec_zlib(&z[..used]) {
+        Ok(o) if o == out => {}
+        _ => return None,
     }
     Some((out, used))
 }
@@ -2732,9 +2890,22 @@ pub fn repaired_misuse_oracles(case: &Case, obs: &Observed) -> Vec<Finding> {
             if (m == "first-image-subframe" || m == "indexed-no-palette") && c.res == "ok" {
                 f.push(("oracle", format!("misuse-accepted/{}", m), format!("{} ({}) returned Ok although it is misuse: {}", c.kind.name(), c.what, m)));
             }
+            // the refused `Encoder` calls of `Cfg::mis`: the documented error, nothing else
+            if c.kind == CallKind::EncoderSetter && c.res != enc_misuse_expected(&c.what) {
+                let key = if c.res == "ok" { format!("misuse-accepted/{}", m) } else { format!("misuse-wrong-error/{}", m) };
+                f.push(("oracle", key, format!("Encoder::{} answered `{}`, expected `{}`", c.what, c.res, enc_misuse_expected(&c.what))));
+            }
         }
     }
+    for (class, what) in &obs.api_faults {
+        f.push(("oracle", class.clone(), what.clone()));
+    }
     f
+}
+
+/// the misuse classes judged by `repaired_misuse_oracles` (C19 does not judge them a second time)
+pub fn judged_with_repairs(m: &str) -> bool {
+    matches!(m, "first-image-subframe" | "indexed-no-palette" | "encoder-zero-frames" | "with-info-half-animated" | "encoder-setter-on-non-animated")
 }
 
 /// everything C12 checks on one executed case
@@ -2930,6 +3101,12 @@ pub fn base_cfg(rng: &mut Rng, color: u8, depth: u8, w: u32, h: u32) -> Cfg {
     c
 }
 
+/// 1..4 refused `Encoder` calls (`Cfg::mis`)
+pub fn rand_mis(rng: &mut Rng) -> String {
+    let n = rng.usize(1, 4);
+    (0..n).map(|_| *rng.pick(&['z', 's', 'd', 'b', 'o', 'A', 'F'])).collect()
+}
+
 pub fn rand_cfg(rng: &mut Rng) -> Cfg {
     let (color, depth) = *rng.pick(&LEGAL_PAIRS);
     let (w, h) = match rng.below(10) {
@@ -2949,6 +3126,9 @@ pub fn rand_cfg(rng: &mut Rng) -> Cfg {
         c.sep = rng.chance(1, 3);
     }
     c.val = rng.bool();
+    if rng.chance(1, 10) {
+        c.mis = rand_mis(rng);
+    }
     c
 }
 
@@ -3030,10 +3210,17 @@ pub fn gen_session(rng: &mut Rng, cfg: &Cfg, sh: &mut Shadow, n_imgs: usize, fin
         let (w, _) = if j == 0 { sh.dims() } else { (cfg.w, cfg.h) };
         let row = row_bytes(cfg.color, cfg.depth, w);
         for p in pieces(rng, &data, row) {
+            if rng.chance(1, 16) {
+                // one `write` call with an empty buffer (accepts nothing, changes nothing)
+                ops.push(SOp::Write(vec![]));
+            }
             ops.push(SOp::Write(p));
             if rng.chance(1, 8) {
                 ops.push(SOp::Flush);
             }
+        }
+        if rng.chance(1, 16) {
+            ops.push(SOp::Write(vec![]));
         }
         ss.feed(sh, n);
     }
@@ -3292,6 +3479,11 @@ fn with_info_bad_fctl_cases(rng: &mut Rng) -> Vec<Case> {
                 out.push(Case { cfg: cfg.clone(), sink: SinkSpec::default(), steps, fin: PFinal::Finish, origin: "with-info-bad-fctl".into() });
             }
         }
+    }
+    // an animation control with zero frames through `with_info`: refused before the frame control is looked at
+    for (fc, plays) in [(&fcs[0], 0u32), (&fcs[3], 3), (&fcs[6], 1)] {
+        let cfg = Cfg { w: 2, h: 2, color: 0, depth: 8, anim: Some((0, plays)), fc: Some(fc.clone()), comp: 2, filt: 0, val: plays == 3, ..Default::default() };
+        out.push(Case { cfg, sink: SinkSpec::default(), steps: vec![Step::Image(rng.bytes(4))], fin: PFinal::Finish, origin: "with-info-bad-fctl".into() });
     }
     out
 }
@@ -3892,6 +4084,13 @@ pub fn process_cases(ctx: &mut Ctx, cases: &[Case]) -> Vec<Vec<u8>> {
         }
         for p in &o.panics {
             ctx.rep.count("panics (not judged by C12)", p.rsplit(" @ ").next().unwrap_or("?"));
+        }
+        for (call, res) in &o.enc_misuse {
+            ctx.rep.count("refused Encoder calls (not part of the model's configuration)", &format!("{} -> {}", call, res));
+        }
+        for sess in c.steps.iter().filter_map(|s| if let Step::Stream(x) = s { Some(x) } else { None }).chain(if let PFinal::Into(x) = &c.fin { Some(x) } else { None }) {
+            ctx.rep.count("stream writer constructor", if sess.size == 4096 { "default size (stream_writer / into_stream_writer)" } else { "with_size" });
+            ctx.rep.count("write(&[]) calls per session", &sess.ops.iter().filter(|o| matches!(o, SOp::Write(d) if d.is_empty())).count().min(3).to_string());
         }
         // the repaired refusals (N3, N5, N6) as they are exercised
         if c.cfg.fc.is_some() {
